@@ -3,6 +3,9 @@
    core/internal/evaluator/caching.go by the probe of checks/c03.py on every run). *)
 From Coq Require Import ZArith List.
 From Burrow Require Import Int64 F32 Eval EvalSpec EvalProofs.
+From Coq Require Import Reals.
+From Flocq Require Import Core IEEE754.Binary IEEE754.Bits.
+From Burrow Require Import F32Proofs EvalProofs EvalCompleteProofs.
 Import ListNotations.
 Open Scope Z_scope.
 
@@ -82,3 +85,52 @@ Theorem C03_window_without_commits :
         match b with O => f32_zero | _ => f32_div (f32_of_int 0) (f32_of_int (Z.of_nat b)) end).
 Proof. exact eval_partition_all_nil. Qed.
 Print Assumptions C03_window_without_commits.
+
+(* ---- the completeness gate in real numbers (proofs: F32Proofs.v, EvalCompleteProofs.v) ---- *)
+
+(* Complete >= minimum-complete is the comparison of the real values: minimum <= (filled/slots rounded to binary32) *)
+Theorem C03_gate_is_real_comparison :
+  forall b k minimum,
+    (0 < b + k)%nat -> Z.of_nat (b + k) <= 2 ^ 24 -> is_finite 24 128 minimum = true ->
+    (f32_ge (part_complete b k) minimum = true <->
+     (B2R 24 128 minimum <=
+      round radix2 (FLT_exp (-149) 24) ZnearestE (IZR (Z.of_nat k) / IZR (Z.of_nat (b + k))))%R).
+Proof. exact gate_is_real_comparison. Qed.
+Print Assumptions C03_gate_is_real_comparison.
+
+(* a full window passes the gate exactly when minimum <= 1 *)
+Theorem C03_gate_full_window :
+  forall k minimum, is_finite 24 128 minimum = true ->
+    (f32_ge (part_complete 0 k) minimum = true <-> (B2R 24 128 minimum <= 1)%R).
+Proof. exact gate_full_window. Qed.
+Print Assumptions C03_gate_full_window.
+
+(* a NaN threshold closes the gate *)
+Theorem C03_gate_nan_minimum :
+  forall b k minimum, is_nan 24 128 minimum = true -> f32_ge (part_complete b k) minimum = false.
+Proof. exact gate_nan_minimum. Qed.
+Print Assumptions C03_gate_nan_minimum.
+
+(* evaluatePartitionStatus applies the rules exactly when minimum <= rounded(filled/slots), else reports OK *)
+Theorem C03_partition_gate_real :
+  forall b c0 cs p minimum allowed now,
+    cp_offsets p = repeat None b ++ map Some (c0 :: cs) ->
+    Z.of_nat (b + S (length cs)) <= 2 ^ 24 -> is_finite 24 128 minimum = true ->
+    let q := round radix2 (FLT_exp (-149) 24) ZnearestE
+               (IZR (Z.of_nat (S (length cs))) / IZR (Z.of_nat (b + S (length cs)))) in
+    ((B2R 24 128 minimum <= q)%R ->
+       eval_partition p minimum allowed now =
+       Ok (calc_status_some (c0 :: cs) (cp_brokers p) (cp_lag p) now allowed,
+           Some c0, Some (last (c0 :: cs) c0), part_complete b (S (length cs)))) /\
+    ((q < B2R 24 128 minimum)%R ->
+       eval_partition p minimum allowed now =
+       Ok (StOK, Some c0, Some (last (c0 :: cs) c0), part_complete b (S (length cs)))).
+Proof. exact partition_gate_real. Qed.
+Print Assumptions C03_partition_gate_real.
+
+(* non-vacuity: threshold 0.75 (0x3F400000): 3 of 4 slots passes, 2 of 3 does not *)
+Example C03_gate_witness :
+  f32_ge (part_complete 1 3) (f32_of_bits 0x3F400000) = true /\
+  f32_ge (part_complete 1 2) (f32_of_bits 0x3F400000) = false /\
+  is_finite 24 128 (f32_of_bits 0x3F400000) = true.
+Proof. exact ex_gate. Qed.
